@@ -155,6 +155,21 @@ class Poly:
             e1, e2 = self.plus(e1, extra), self.plus(extra, e2)
         return e1, e2
 
+    def vanishing_pairs(self):
+        """p together with a term that normalises to zero, added or subtracted on either side (x - 0, x - (y - y),
+        x * y - (z + x - z - x), 0 * y + p, ...), against p itself: the vanishing part must leave no trace in the normal
+        form.  All combinations of five polynomials, seven vanishing terms and four positions."""
+        minus = Const('minus', TFun(self.T, self.T, self.T))
+        x, y, z = self.vars
+        zeros = [self.num(0), minus(y, y), minus(self.plus(z, x), self.plus(x, z)), minus(self.times(x, y), self.times(y, x)),
+                 self.times(self.num(0), y), minus(minus(self.plus(z, x), z), x), minus(self.num(2), self.num(2))]
+        ps = [x, self.times(x, y), self.plus(x, y), self.plus(self.num(3), x), self.times(self.num(2), x)]
+        out = []
+        for p in ps:
+            for zero in zeros:
+                out += [(minus(p, zero), p), (self.plus(p, zero), p), (self.plus(zero, p), p), (minus(minus(p, zero), zero), p)]
+        return out
+
     def tied_sum_pair(self):
         """Two sums of the same 2-4 monomials over the same two or three variables, the monomials differing in the power of ONE
         variable only (x*x*y, x*y, x*x*x*y: equal powers elsewhere), added in two different orders."""
@@ -429,8 +444,11 @@ def run_check(tier, seed):
             continue
         P = Poly(r, T, mod)
         name = '%s-normaliser' % thy
-        for i in range(45 * scale):
-            if i % 3 == 2:
+        directed = P.vanishing_pairs() if thy != 'nat' else []
+        for i in range(45 * scale + len(directed)):
+            if i >= 45 * scale:
+                e1, e2 = directed[i - 45 * scale]
+            elif i % 3 == 2:
                 e1, e2 = P.product_pair()
             elif i % 6 == 1:
                 e1, e2 = P.tied_sum_pair()
